@@ -1,6 +1,7 @@
 package world
 
 import (
+	"sort"
 	"time"
 	"verifsim/simrt"
 	"fmt"
@@ -330,6 +331,28 @@ func oracleC13(v *View, vd *Verdict) {
 	if leaked > 0 && v.R.Plan.Cfg.Gateway {
 		vd.Add("C13", "C13/goroutine-leak/"+fn[0], "%d gateway goroutines alive %d ms after shutdown: %v", leaked, 3000, fn)
 	}
+	// "outlives it", not "outlives the gateway": the same census right before the gateway is shut down,
+	// judged when every session had ended well before it (a second, less what the scheduler stalled)
+	if v.R.PreCensusNs > 0 && v.R.Plan.Cfg.Gateway {
+		settled := len(v.Sess) > 0
+		for _, sv := range v.Sess {
+			if sv.EndT < 0 || sv.EndT > v.R.PreCensusNs-int64(1e9)-v.R.StalledNs {
+				settled = false
+			}
+		}
+		if settled {
+			var fn []string
+			for _, f := range v.R.PreLeaked {
+				if strings.Contains(f, "handler1") || strings.Contains(f, "bisquitt/transactions") || strings.Contains(f, "bisquitt/util") {
+					fn = append(fn, shortFn(f))
+				}
+			}
+			sort.Strings(fn)
+			if len(fn) > 0 {
+				vd.Add("C13", "C13/goroutine-outlives-session/"+fn[0], "%d goroutines of ended sessions alive at %d, right before the gateway is shut down (last session ended at least 1 s earlier): %v", len(fn), v.R.PreCensusNs, fn)
+			}
+		}
+	}
 	// ... nor a timer chain: a retry timer of an ended session that keeps re-arming itself runs a
 	// goroutine of that session every RetryDelay for ever. After the gateway has returned and the last
 	// session has ended no repo code may arm a timer (raw-peer plans only: a real client has timers
@@ -449,6 +472,7 @@ func genC13(g *Gen, idx int) *Plan {
 	cfg.Sched = g.Sched("gateway/handler1.go", "util/conn_with_context.go", "gateway/gateway.go", "transactions/")
 	kind := (idx / 8) % 8
 	causeK := idx % 8
+	cfg.PreCensus = true
 	p := &Plan{Cfg: cfg}
 	sg := &sessGen{g: g, cid: "c1"}
 	sg.gap(5, 300)
@@ -683,7 +707,7 @@ func init() {
 		Rule:   "25 connect-exchange scripts (every prefix of CONNECT[will][AUTH][WILLTOPIC][WILLMSG], repeated CONNECT/AUTH/WILLTOPIC, a refused step: wildcard/QoS 3/empty WILLTOPIC, AUTH with another method, CONNECT with zero keep-alive or an unknown protocol id while an exchange is open) after which the peer is silent; complete scripts face a broker that never answers CONNECT, in a fifth of the runs one that stops reading after 1-13 bytes (the gateway's write of the MQTT CONNECT is blocked half-way); each script with seeded timing, link latency and yield sites; virtual-time deadline = last CONNECT + 5 s + 100 ms poll + 3 ms slack; non-trivial = session in which a CONNECT was consumed and no broker CONNACK arrived",
 		Gen:    genC10, Oracle: oracleC10, Quick: 1000, Thorough: 60000})
 	Register(&Check{ID: "C13", Level: "fault_enumeration",
-		Rule:   "8 session scripts (unconnected, connecting, active idle, active with traffic and pending QoS 1/2 transactions, asleep, asleep with pinger, awake, back from sleep with CONNECT while QoS 0-2 messages wait in the buffer with retry timers of a few ms and a slow gateway) x 7 causes (gateway shutdown, plain DISCONNECT, broker FIN, broker RST, undecodable datagram, illegal packet, connect timeout) at a seeded instant; deadline = cause + 100 ms + 3 ms; DISCONNECT-to-client rule; in scripts asleep / asleep with pinger QoS 1-2 messages wait in the buffer (paused retry timers) when the cause strikes; goroutine census of gateway/transactions/util frames after final shutdown, and timer census: no timer may be armed by repo code after the gateway has returned and the last session has ended; non-trivial = a termination cause occurred",
+		Rule:   "8 session scripts (unconnected, connecting, active idle, active with traffic and pending QoS 1/2 transactions, asleep, asleep with pinger, awake, back from sleep with CONNECT while QoS 0-2 messages wait in the buffer with retry timers of a few ms and a slow gateway) x 7 causes (gateway shutdown, plain DISCONNECT, broker FIN, broker RST, undecodable datagram, illegal packet, connect timeout) at a seeded instant; deadline = cause + 100 ms + 3 ms; DISCONNECT-to-client rule; in scripts asleep / asleep with pinger QoS 1-2 messages wait in the buffer (paused retry timers) when the cause strikes; goroutine census of gateway/transactions/util frames right before the gateway is shut down (every session ended >= 1 s earlier: nothing of a session may outlive it, not only the gateway) and after final shutdown, and timer census: no timer may be armed by repo code after the gateway has returned and the last session has ended; non-trivial = a termination cause occurred",
 		Gen:    genC13, Oracle: oracleC13, Quick: 1280, Thorough: 128000})
 	Register(&Check{ID: "C14", Level: "fault_enumeration",
 		Rule:   "same script x cause space as C13; an MQTT DISCONNECT on a session's broker stream must be the translation of a consumed plain MQTT-SN DISCONNECT; non-trivial = session ended or an MQTT DISCONNECT was written",
